@@ -139,10 +139,48 @@ class TokPE(pe.PE):
             return pe.TOP
         return pe.TOP
 
+    # libc functions that read through a pointer argument: (pointer argument index, length argument index or None = to the NUL)
+    READERS = {"strncmp": ((0, 2), (1, 2)), "strncasecmp": ((0, 2), (1, 2)), "memcmp": ((0, 2), (1, 2)), "memcpy": ((1, 2),),
+               "memmove": ((1, 2),), "strcmp": ((0, None), (1, None)), "strcasecmp": ((0, None), (1, None)), "strlen": ((0, None),),
+               "strchr": ((0, None),), "strstr": ((0, None), (1, None)), "strtod": ((0, None),), "strtol": ((0, None),),
+               "strtoll": ((0, None),), "strtoull": ((0, None),), "strdup": ((0, None),), "memchr": ((0, 2),)}
+
+    def _note_input_reads(self, state, nm, args):
+        """a library call that reads through a pointer into the caller's input counts as reads of those bytes; bytes outside
+        the chunk that was given (before its start, or at / after its length) are look-ahead"""
+        spec = self.READERS.get(nm)
+        if spec is None:
+            return
+        for pk, lk in spec:
+            if pk >= len(args):
+                continue
+            a = args[pk]
+            if not (isinstance(a, tuple) and a and a[0] == "ptr" and a[1] == "input"):
+                continue
+            el, fl = pe.fields_of(a[2]) if a[2] else (0, ())
+            if self.length < 0:
+                # NUL-terminated mode: the text extends to its terminator; only a pointer before its start is out of bounds here
+                if isinstance(el, int) and el < 0:
+                    state.trace.append(("lookahead", a[2]))
+                continue
+            n = None
+            if lk is not None and lk < len(args) and pe.is_const(args[lk]):
+                n = args[lk][1]
+            if not isinstance(el, int) or n is None:
+                state.trace.append(("lookahead", a[2]))
+                continue
+            for k in range(el, el + max(n, 0)):
+                if 0 <= k < self.length:
+                    state.trace.append(("read", k))
+                else:
+                    state.trace.append(("lookahead", (("i", k),)))
+                    break
+
     def call_model(self, state, frame, i, args):
         nm = i.callee
         if nm is None:
             return None
+        self._note_input_reads(state, nm, args)
         if nm in ("uselocale", "newlocale", "duplocale"):
             return ("ptr", "locale", ())
         if nm in ("freelocale", "free", "printbuf_reset", "json_object_array_shrink", "setlocale"):
